@@ -15,12 +15,18 @@ Fixpoint str_eqb (a b : str) : bool :=
   | _, _ => false
   end.
 
-(* Go: isNumber = unicode.IsDigit; the model's domain is texts whose only digits are ASCII
-   (the harness sends the others to the implementation only). *)
-Definition is_digit (c : N) : bool := (48 <=? c) && (c <=? 57).
+(* Go: isNumber = unicode.IsDigit, which is true for '0'..'9' and for the non-ASCII characters of
+   Unicode category Nd.  The category table is not modelled: [ud : N -> bool] says which non-ASCII
+   code points are digits (the harness sends, with each text, the Nd characters occurring in it;
+   the theorems hold for every [ud] that is false on ASCII).  strconv accepts ASCII digits only:
+   the conversions of DbcParse use [ascii_digit]. *)
+Definition ascii_digit (c : N) : bool := (48 <=? c) && (c <=? 57).
+Definition is_digit (ud : N -> bool) (c : N) : bool := ascii_digit c || ud c.
 Definition is_letter (c : N) : bool := ((97 <=? c) && (c <=? 122)) || ((65 <=? c) && (c <=? 90)).
-Definition is_hex (c : N) : bool := is_digit c || ((97 <=? c) && (c <=? 102)) || ((65 <=? c) && (c <=? 70)).
-Definition is_alnum (c : N) : bool := is_letter c || is_digit c || (c =? 95) || (c =? 45).
+Definition is_hex (ud : N -> bool) (c : N) : bool :=
+  is_digit ud c || ((97 <=? c) && (c <=? 102)) || ((65 <=? c) && (c <=? 70)).
+Definition is_alnum (ud : N -> bool) (c : N) : bool := is_letter c || is_digit ud c || (c =? 95) || (c =? 45).
+Definition no_ud : N -> bool := fun _ => false.
 Definition is_space (c : N) : bool := (c =? 32) || (c =? 9) || (c =? 10) || (c =? 13).
 
 Definition ch_quote := 34. Definition ch_plus := 43. Definition ch_minus := 45. Definition ch_dot := 46.
